@@ -94,3 +94,66 @@ func checkLevelDetection(c *Ctx, r *Report) {
 		r.Unk(rule, "candidate level selection", c.Pos(fn.Pos()), fmt.Sprintf("no append of a level name found in %s", shortFn(fn)))
 	}
 }
+
+// checkGetPromptShape: the prompt AcquirePriv reads the current level from: one return is written, the channel is read
+// until the prompt pattern matches, and what is handed back is that pattern's match in exactly those bytes.
+func checkGetPromptShape(c *Ctx, r *Report) {
+	rule := "C04/get-prompt"
+	fn := c.LookupFunc("channel", "Channel", "GetPrompt")
+	wr := c.LookupFunc("channel", "Channel", "WriteReturn")
+	rup := c.LookupFunc("channel", "Channel", "ReadUntilPrompt")
+	pp := c.LookupField("channel", "Channel", "PromptPattern")
+	if fn == nil || wr == nil || rup == nil || pp == nil {
+		r.Anchor(rule, "(*channel.Channel).GetPrompt / WriteReturn / ReadUntilPrompt / PromptPattern")
+		return
+	}
+	construct := "GetPrompt worker"
+	var worker *ssa.Function
+	for _, f := range append([]*ssa.Function{fn}, AnonFuncsDeep(fn)...) {
+		if len(staticCallsTo(f, rup)) > 0 {
+			worker = f
+		}
+	}
+	if worker == nil {
+		r.Bad(rule, construct, c.Pos(fn.Pos()), "GetPrompt does not read until the prompt")
+		return
+	}
+	ws, rs := staticCallsTo(worker, wr), staticCallsTo(worker, rup)
+	if len(ws) != 1 || len(rs) != 1 || !dominatesInstr(ws[0], rs[0]) {
+		r.Bad(rule, construct, c.Pos(worker.Pos()), fmt.Sprintf("GetPrompt must write exactly one return and then read until the prompt once (found %d writes, %d reads, or in the wrong order): an extra return leaves an unread prompt in the queue for the next wait", len(ws), len(rs)))
+		return
+	}
+	read := resultOf(rs[0].(*ssa.Call), 0)
+	okFind := false
+	allInstrs(worker, func(in ssa.Instruction) {
+		call, ok := in.(*ssa.Call)
+		if !ok {
+			return
+		}
+		o := CalleeObj(call)
+		if o == nil || o.Pkg() == nil || o.Pkg().Path() != "regexp" || o.Name() != "Find" || len(call.Call.Args) != 2 {
+			return
+		}
+		if f, _, isLoad := fieldLoad(call.Call.Args[0]); !isLoad || f != pp {
+			return
+		}
+		arg := call.Call.Args[1]
+		if arg == read {
+			okFind = true
+		}
+		if u, ok := arg.(*ssa.UnOp); ok {
+			if a, ok := u.X.(*ssa.Alloc); ok {
+				for _, ref := range *a.Referrers() {
+					if st, ok := ref.(*ssa.Store); ok && st.Val == read {
+						okFind = true
+					}
+				}
+			}
+		}
+	})
+	if okFind {
+		r.OK(rule, construct, c.Pos(rs[0].Pos()), "WriteReturn; ReadUntilPrompt(ctx); PromptPattern.Find(those bytes)")
+	} else {
+		r.Bad(rule, construct, c.Pos(rs[0].Pos()), "what GetPrompt returns is not the prompt pattern's match in the bytes it has just read: the privilege level is then determined from something other than the device's current prompt")
+	}
+}
